@@ -89,6 +89,13 @@ func (p *ReconnectClient) Subscribe(ctx context.Context, q Query, clientType ...
 	defer done()
 
 	for {
+		// Do not start an attempt once closed or cancelled: not every
+		// transport watches the context it is given.
+		select {
+		case <-ctx.Done():
+			return ctx.Err()
+		default:
+		}
 		start := time.Now()
 		err := p.Client.Subscribe(ctx, q, clientType...)
 		if p.disconnect != nil {
